@@ -271,9 +271,47 @@ func steppedClock(r *rng, validate bool) []string {
 	return out
 }
 
+// resolutionGrid (C02, second clause): generation and validation must resolve parameters identically — absent parameters,
+// a zero period and the explicit defaults are interchangeable on both sides.  For a few keys and instants the code generated
+// under one spelling of the parameters is validated under every other spelling, at the same instant and at the instants of
+// the neighbouring steps (skew 0, 1, 2), so that a default applied on one side only, or in one part of the validator only
+// (the step computation but not the window stride, say), shows as a wrong verdict.
+func resolutionGrid(r *rng) []string {
+	var out []string
+	for k := 0; k < 6; k++ {
+		key := genKey(r)
+		ks := hxs(spell(r, key))
+		sec := int64(r.intn(2000000000)) + 90
+		if k == 0 {
+			sec = 59
+		}
+		for _, s := range []uint64{0, 1, 2} {
+			for dist := -int64(s) - 1; dist <= int64(s)+1; dist++ {
+				at := sec + dist*30
+				if at < 0 {
+					continue
+				}
+				code := refHOTP(key, uint64(at)/30, 6, 0)
+				for _, p := range []string{paramStr(6, 0, s, 0), paramStr(6, 30, s, 0)} {
+					out = append(out, fmt.Sprintf("vtotp %s %s %s %s", ks, hxs(code), timeFields(r, sec), p))
+				}
+				if s == 0 {
+					out = append(out, fmt.Sprintf("vtotp %s %s %s N", ks, hxs(code), timeFields(r, sec)))
+				}
+			}
+		}
+		for _, p := range []string{"N", paramStr(6, 0, 0, 0), paramStr(6, 30, 0, 0), paramStr(0, 0, 0, 0)} {
+			out = append(out, fmt.Sprintf("gtotp %s %s %s", ks, timeFields(r, sec), p))
+			out = append(out, fmt.Sprintf("gvtotp %s %d %d %s", ks, sec, sec+int64(r.intn(3)-1)*30, p))
+		}
+	}
+	return out
+}
+
 func genC02(r *rng, n int, hostile bool) []string {
 	var out []string
 	out = append(out, steppedClock(r, false)...)
+	out = append(out, resolutionGrid(r)...)
 	for i := 0; i < n; i++ {
 		key := genKey(r)
 		per := pick(r, periods)
@@ -662,6 +700,7 @@ func genC04(r *rng, n int, hostile bool) []string {
 	out = append(out, steppedClock(r, true)...)
 	out = append(out, aliasOps(r, true)...)
 	out = append(out, degenerateOps(r, "totp")...)
+	out = append(out, resolutionGrid(r)...)
 	for i := 0; i < n; i++ {
 		key := genKey(r)
 		d, a := genDigits(r, hostile), genAlgo(r, hostile)
